@@ -19,7 +19,7 @@ import (
 // is excluded (and counted) while the finding is open. Replays and
 // TestKnownFindings run with strict=true, i.e. with no exclusion.
 var openFindings = map[string]bool{
-	"F-C10-1": true, // copy(<builtin function>) loses the function's name
+	"F-C10-1": false, // copy(<builtin function>) lost the function's name; repaired in /repo by bd9c161, replay under replays/C10/fixed
 	"F-C10-2": true, // bytes(<negative int>) panics (makeslice) instead of failing in an orderly way
 }
 
